@@ -42,6 +42,7 @@ def run(idx, rep, tier):
     rep.rule("R6", "Equality dispatch and when/do semantics")
     rep.rule("R7", "an erroring expression does not match")
     rep.rule("R8", "simple function vote/value tables")
+    rep.rule("R9", "a function's value is produced once per line: only Function.to_value calls _produce_value")
     r1(idx, rep)
     r2(idx, rep)
     r3(idx, rep)
@@ -50,6 +51,7 @@ def run(idx, rep, tier):
     r6(idx, rep)
     r7(idx, rep)
     r8(idx, rep)
+    r9(idx, rep)
     rep.stats["exhaustive"] = True
 
 
@@ -587,3 +589,20 @@ def r8(idx, rep):
     for cls, (fi, bad) in groups.items():
         rep.analysed(fi)
         rep.check(bad is None, "R8", f"{fi.file}::{cls} value table", bad or "", K.where(fi, fi.node))
+
+
+# ------------------------------------------------------------------------------------------ R9
+def r9(idx, rep):
+    """argument validation evaluates every argument before a function decides (Function.matches → sibling_values → to_value), so
+    a function that calls _produce_value() directly instead of the cached to_value() runs its side effect twice per line when nested
+    (counters such as every()/count()/tally() then advance twice)"""
+    sites = K.calls_named(idx, {"_produce_value"}, "csvpath/matching/")
+    n = 0
+    for s in sites:
+        fi = s["fi"]
+        if fi.name == "_produce_value":
+            continue  # an override delegating to its parent
+        n += 1
+        rep.check(fi.qual == "Function.to_value", "R9", f"{fi.file}::{fi.qual} calls _produce_value",
+                  "only the caching Function.to_value may call _produce_value; a direct call produces the value (and its side effects) a second time on lines where it was already produced", K.where(fi, s["call"]))
+    rep.floor("R9", 1, "_produce_value call sites")
